@@ -15,7 +15,10 @@ echo "== suite WITH change (incl. demo)" >> $LOG
 cargo nextest run --workspace --lib --tests --no-fail-fast --offline 2>&1 | grep -E "Summary|^\s+FAIL" | sort -u >> $LOG
 for c in "$@"; do
   echo "== check $c quick against the change" >> $LOG
-  /verif/tools/check_against.sh $W $c quick 2>&1 | grep -E "^$c|VIOLATION|KNOWN|MACHINERY|unattributed|^    +[0-9]+  " | cut -c1-300 | head -12 >> $LOG
+  /verif/tools/check_against.sh $W $c quick > /tmp/seed/confirm-check.out 2>&1; echo "exit=$?" >> $LOG
+  grep -E "^$c|MACHINERY|unattributed" /tmp/seed/confirm-check.out | cut -c1-300 >> $LOG
+  grep -E "VIOLATION" /tmp/seed/confirm-check.out | head -2 >> $LOG
+  grep -E "KNOWN|^    +[0-9]+  " /tmp/seed/confirm-check.out | cut -c1-300 | head -8 >> $LOG
 done
 git apply -R $OUT/patch.diff 2>/dev/null || git checkout -q -- .
 echo "== demo WITHOUT change" >> $LOG
